@@ -17,11 +17,13 @@ PROP = 'C12'
 RULES = ['edge', 'center', 'disc', 'corner']
 
 
-def cfg(shapes, dx0s, scales, depth, bounded, pinned=False, emit=False, emit_len=0, laws=True, maxr=6, maxc=7, view=True):
+def cfg(shapes, dx0s, scales, depth, bounded, pinned=False, emit=False, emit_len=0, laws=True, maxr=6, maxc=7, view=True, constraint=None):
     c = 'INIT Init\nNEXT Next\nCHECK_DEADLOCK FALSE\nCONSTANTS\n MaxR = %d\n MaxC = %d\n Pinned = %s\n Depth = %d\n Bounded = %s\n EmitOn = %s\n EmitLen = %d\n' % (
         maxr, maxc, 'TRUE' if pinned else 'FALSE', depth, 'TRUE' if bounded else 'FALSE', 'TRUE' if emit else 'FALSE', emit_len)
     if laws:
         c += 'INVARIANT TypeOK\nINVARIANT Coherent\nINVARIANT CropTight\nPROPERTY ValidityPreserved\nPROPERTY CropKeepsValid\n'
+    if constraint:
+        c += 'CONSTRAINT %s\n' % constraint
     if emit:
         c += 'INVARIANT Emit\n'
     elif view:
@@ -134,11 +136,19 @@ def run_program(init, ops, np, salt=0):
                     ev['xy'] = describe_xy(obj, np)
                     ok = obj.x.shape == obj.data.shape
                 elif name == 'read_rt':
+                    # r and t are cached separately by the implementation: the order of the two reads must not matter.
+                    # A copy of the object (same caches) is read t-first, the object itself r-first.
+                    import copy
+                    twin = copy.deepcopy(obj)
+                    t2, r2 = np.asarray(twin.t), np.asarray(twin.r)
+                    x2, y2 = np.asarray(twin.x), np.asarray(twin.y)
                     r, t = np.asarray(obj.r), np.asarray(obj.t)
                     ev['xy'] = describe_xy(obj, np)
                     x, y = np.asarray(obj.x), np.asarray(obj.y)
                     ev['rtok'] = bool(r.shape == x.shape and t.shape == x.shape and np.allclose(r, np.hypot(x, y), rtol=1e-12, atol=1e-12)
-                                      and np.allclose(t, np.arctan2(y, x), rtol=1e-12, atol=1e-12))
+                                      and np.allclose(t, np.arctan2(y, x), rtol=1e-12, atol=1e-12)
+                                      and r2.shape == x2.shape and t2.shape == x2.shape and np.allclose(r2, np.hypot(x2, y2), rtol=1e-12, atol=1e-12)
+                                      and np.allclose(t2, np.arctan2(y2, x2), rtol=1e-12, atol=1e-12))
                     ok = r.shape == obj.data.shape
                 elif name == 'crop':
                     before = np.count_nonzero(np.isfinite(obj.data))
@@ -269,9 +279,26 @@ def run(ctx, replay=None, selftest=False):
     c, d = cfg([(3, 3), (4, 4), (3, 5), (5, 4)], [(1, 1), (1, 2)], [(1, 2), (2, 1)], dsim, True, emit=True, emit_len=dsim, laws=False, maxr=9, maxc=9)
     r2 = ctx.tlc('Interferogram', c, defs=d, name='simulate', coverage=False, count=False,
                  simulate=dict(num=nsim, depth=dsim + 1, seed=ctx.seed + 7))
+    # directed: read r / t, change something, read again, change something else, read again -- every pair of changes
+    c, d = cfg([(3, 4)] if quick else [(3, 4), (4, 4)], [(1, 2)], [(2, 1)], 5, True, emit=True, emit_len=5, laws=False, maxr=5, maxc=6, constraint='Alternating')
+    r3 = ctx.tlc('Interferogram', c, defs=d, name='sequences-read-change-read', coverage=False, count=False, workers=1, timeout=3000)
+    if len(r3.records) < 100:
+        raise core.Machinery('directed read/change/read exploration produced only %d histories' % len(r3.records))
+    # keep every directed history whose two changes can move coordinates or the bounding box; thin the others out
+    moving = {'crop', 'pad', 'recenter', 'latcal', 'strip_latcal', 'mask', 'fill'}
+    directed, per_shape = [], {}
+    for k, rec in enumerate(r3.records):
+        if not ({rec['hist'][1]['op'], rec['hist'][3]['op']} <= moving or k % 25 == 0):
+            continue
+        # quick tier: at most two parameter variants of each (initial map, pair of changes)
+        kk = json.dumps([rec['init']['shape'], sorted(map(tuple, rec['init']['invalid'])), rec['hist'][1]['op'], rec['hist'][3]['op']])
+        per_shape[kk] = per_shape.get(kk, 0) + 1
+        if quick and per_shape[kk] > 2:
+            continue
+        directed.append(rec)
     programs = []
     seen = set()
-    for rec in r1.records + r2.records:
+    for rec in r1.records + r2.records + directed:
         init = {'shape': list(rec['init']['shape']), 'dx': list(rec['init']['dx']), 'invalid': [list(p) for p in rec['init']['invalid']]}
         ops = [dict(o) for o in rec['hist']]
         # spike_clip is nondeterministic in the model; which samples it removes is decided by the data, so programs that
